@@ -778,27 +778,39 @@ _run_pre_isvalid = run
 
 
 def is_valid_round_trips(ck, prog):
-    """transform rejects a value exactly when it is not its own category code.  to_category saturates (negative -> 0,
-    > 65535 -> 65535, NaN -> 0), so validity cannot be decided from the fractional part alone: the verdict depends on
-    to_category(self) (round trip) or on explicit range tests of self on both sides."""
+    """transform rejects a value exactly when it is not its own category code, and 'fitting a column with non-integer
+    values returns an error'.  to_category truncates and saturates (2.0005 -> 2, negative -> 0, > 65535 -> 65535, NaN -> 0),
+    so (a) the verdict depends on the category code of the value - to_category(self) or a cast of self to an integer type
+    (round trip) - or on explicit range tests of self on both sides, and (b) the round trip is compared EXACTLY: no ordering
+    comparison puts a tolerance on the difference between the value and its code (with `|code - v| < 0.001` the value 2.0005
+    is merged into category 2 while 1.9995 is rejected)."""
     rule = "E2-provenance"
     bodies = prog.find(r"Categorizable>::is_valid$")
     if not bodies:
         ck.violation(rule, "Categorizable::is_valid exists", "is_valid", "", expected="anchor exists", found="anchor vanished")
         return
+    is_self = lambda x: x[0] == "arg" and x[1] == 1
     for b in bodies:
         ty = b.path.split(" as ")[0].lstrip("<")
-        inst = f"<{ty}>::is_valid depends on the category code of the value (round trip or two-sided range test)"
+        inst = f"<{ty}>::is_valid: exact round trip through the category code (or two-sided range test)"
         res = Resolver(b)
         r = res.local(0)
         subs = list(subterms(r))
-        rt = any(s[0] == "call" and s[1].split("::")[-1] == "to_category" for s in subs)
+        rt = any((s[0] == "call" and s[1].split("::")[-1] == "to_category") or
+                 (s[0] == "cast" and len(s) >= 4 and s[3] == "FloatToInt" and any(is_self(x) for x in subterms(s[1]))) for s in subs)
         rng = any(s[0] == "call" and s[1].split("::")[-1] == "contains" for s in subs)
-        cmps = [s for s in subs if s[0] == "bin" and s[1] in ("Lt", "Le", "Gt", "Ge") and any(x == ("arg", 1, "self") or (x[0] == "arg" and x[1] == 1) for x in (s[2], s[3]))]
-        if rt or rng or len(cmps) >= 2:
-            ck.ok(rule, inst, b.path, f"{b.loc[0]}:{b.loc[1]}", "round trip through to_category" if rt else "explicit range test")
+        cmps = [s for s in subs if s[0] == "bin" and s[1] in ("Lt", "Le", "Gt", "Ge")]
+        direct = [s for s in cmps if is_self(s[2]) or is_self(s[3])]
+        tol = [s for s in cmps if any(any(y[0] == "bin" and y[1] == "Sub" for y in subterms(side)) and any(is_self(y) for y in subterms(side))
+                                      for side in (s[2], s[3]))]
+        site = f"{b.loc[0]}:{b.loc[1]}"
+        if tol:
+            ck.violation(rule, inst, b.path, site, expected="code as T == self (exact)",
+                         found=f"`{render(tol[0])[:100]}`: a tolerance on |code - value| accepts non-integer values just above an integer (2.0005 is encoded as category 2)")
+        elif rt or rng or len(direct) >= 2:
+            ck.ok(rule, inst, b.path, site, "exact round trip through the category code" if rt else "explicit range test")
         else:
-            ck.violation(rule, inst, b.path, f"{b.loc[0]}:{b.loc[1]}", expected="(to_category(self) as T - self).abs() < margin, or 0 <= self <= 65535 and integral",
+            ck.violation(rule, inst, b.path, site, expected="to_category(self) as T == self, or 0 <= self <= 65535 and integral",
                          found=f"`{render(r)[:100]}` never consults the category code: integral values outside the code range count as valid and saturate to category 0 / 65535")
 
 
@@ -807,4 +819,4 @@ def run(ck, prog):
     is_valid_round_trips(ck, prog)
 
 
-EXPLANATION += " is_valid depends on to_category(self) (or on a two-sided range test): out-of-range integral values are not their own category code."
+EXPLANATION += " is_valid compares the value with its category code exactly (round trip through to_category / an integer cast, no tolerance; found and fixed: 2.0005 accepted as category 2) or uses a two-sided range test."
